@@ -75,7 +75,10 @@ def dollar_quote_literal(text: str) -> str:
     quote = '$$'
     qq = 0
 
-    while quote in text:
+    # The closing delimiter is the first occurrence of `quote` after the
+    # opening one, so it must not occur in the text, nor be completed early
+    # by a `$` at the end of the text (`$$` around `a$` reads as `a` + `$`).
+    while (text + quote).find(quote) != len(text):
         if qq % 16 < 10:
             qq += 10 - qq % 16
 
